@@ -68,6 +68,7 @@ type c18Case struct {
 	Cur       int   // index of the current revision
 	PodRevs   []int // revision index per ordinal
 	Limit     int32
+	SelExpr   bool  // the selector is written as an expression (app In (web, web2)): Upgrade strips the key, the label sync must restore it
 	Rollback  bool  // the template was rolled back to T1: revision T1 renumbered past Tn and is the update revision
 	Collision int32 // status.collisionCount of the built-in set (a name collision at some point of its history)
 }
@@ -81,11 +82,11 @@ func (c c18Case) upd() int {
 }
 
 func (c c18Case) String() string {
-	return fmt.Sprintf("%s partition=%d history=T1..T%d current=T%d update=T%d pods at %v limit=%d collisionCount=%d", c.Policy, c.Partition, c.NRevs, c.Cur+1, c.upd()+1, c.PodRevs, c.Limit, c.Collision)
+	return fmt.Sprintf("%s partition=%d history=T1..T%d current=T%d update=T%d pods at %v limit=%d collisionCount=%d selectorAsExpression=%v", c.Policy, c.Partition, c.NRevs, c.Cur+1, c.upd()+1, c.PodRevs, c.Limit, c.Collision, c.SelExpr)
 }
 
 func (c c18Case) builtin() (*appsv1.StatefulSet, []*appsv1.ControllerRevision) {
-	sp := gen.Spec{Name: "web", Replicas: int32(len(c.PodRevs)), Policy: c.Policy, Strategy: gen.RU(c.Partition), Limit: c.Limit, Template: c.upd() + 1}
+	sp := gen.Spec{Name: "web", Replicas: int32(len(c.PodRevs)), Policy: c.Policy, Strategy: gen.RU(c.Partition), Limit: c.Limit, Template: c.upd() + 1, SelExpr: c.SelExpr}
 	sts := builtinFrom(sp.Build())
 	sts.UID = builtinUID
 	sts.ResourceVersion = "7"
@@ -323,6 +324,9 @@ func init() {
 											continue
 										}
 										cases = append(cases, c18Case{Policy: pol, Partition: part, NRevs: n, Cur: cur, PodRevs: pr, Limit: lim, Rollback: rollback, Collision: coll})
+										if variant == 0 && lim == 10 && (thorough || r == maxPods) {
+											cases = append(cases, c18Case{Policy: pol, Partition: part, NRevs: n, Cur: cur, PodRevs: pr, Limit: lim, SelExpr: true})
+										}
 									}
 								}
 							}
@@ -405,7 +409,7 @@ func init() {
 		rep.Extra["migration_cases"] = done
 		rep.Extra["migration_states"] = totalStates
 		rep.Extra["migration_reconciles"] = totalRec
-		rep.Rule = fmt.Sprintf("(A) byte identity: for every template of a reflective generator over PodTemplateSpec (%d single-path mutations; thorough: all pairs in the first two levels) the real Match(FromBuiltin(sts), reference data) must hold, the reference being the built-in encoding. (B) migrations: built-in sets with histories T1..Tn (n=1..%d), the update revision Tn or (after a rollback) T1 renumbered past Tn, status.collisionCount 0 or 1, any current revision, 1..%d pods at any mix of current/update revision, partition 0/1, both policies, history limit 0/10; the real Upgrade runs, then all interleavings of real reconciles, one garbage-collector orphaning step per pod and revision, and kubelet progress are explored (explicit-state, deduplicated), also after any %d interruptions of the adopting reconciles (InternalError, conflict, lost response or crash at any write on revisions or pods); oracle on every reconcile: no revision is created, no revision of the built-in history is deleted before adoption, a pod is deleted only if the built-in controller would (RollingUpdate, ordinal >= partition, revision != update revision); every bottom SCC is a quiescent state with all revisions adopted and label-synced, data unchanged, status.updateRevision = the built-in one, pods adopted and converged. (C) the real Upgrade interleaved with the running controller: the helper runs in its own goroutine and is stopped before each of its API calls; between two calls any number of real reconciles, garbage-collector and kubelet steps may run, a failed Upgrade is re-run once; all schedules are explored by stateless re-execution with state pruning; same oracle on every reconcile, and the goal state at the end.", len(muts), maxRevs, maxPods, interruptions)
+		rep.Rule = fmt.Sprintf("(A) byte identity: for every template of a reflective generator over PodTemplateSpec (%d single-path mutations; thorough: all pairs in the first two levels) the real Match(FromBuiltin(sts), reference data) must hold, the reference being the built-in encoding. (B) migrations: built-in sets with histories T1..Tn (n=1..%d), the update revision Tn or (after a rollback) T1 renumbered past Tn, status.collisionCount 0 or 1, selector written as labels or as an expression, any current revision, 1..%d pods at any mix of current/update revision, partition 0/1, both policies, history limit 0/10; the real Upgrade runs, then all interleavings of real reconciles, one garbage-collector orphaning step per pod and revision, and kubelet progress are explored (explicit-state, deduplicated), also after any %d interruptions of the adopting reconciles (InternalError, conflict, lost response or crash at any write on revisions or pods); oracle on every reconcile: no revision is created, no revision of the built-in history is deleted before adoption, a pod is deleted only if the built-in controller would (RollingUpdate, ordinal >= partition, revision != update revision); every bottom SCC is a quiescent state with all revisions adopted and label-synced, data unchanged, status.updateRevision = the built-in one, pods adopted and converged. (C) the real Upgrade interleaved with the running controller: the helper runs in its own goroutine and is stopped before each of its API calls; between two calls any number of real reconciles, garbage-collector and kubelet steps may run, a failed Upgrade is re-run once; all schedules are explored by stateless re-execution with state pruning; same oracle on every reconcile, and the goal state at the end.", len(muts), maxRevs, maxPods, interruptions)
 		rep.Validated = totalRec + nA
 		return rep.Finish()
 	})
